@@ -20,6 +20,7 @@ def op_configs(tier):
     add("segregating A", op="segr", fam="A", R=5, pmax=3)
     add("segregating B", op="segr", fam="B", R=4 if q else 5, pmax=3)
     add("pairwise D", op="pair", fam="D", R=4 if q else 6)
+    add("pairwise H (single-agent rows for the last sample only)", op="pair", fam="H", R=6 if q else 7)
     add("merge-min C", op="mergemin", fam="C", R=6 if q else 7, pmax=6)
     add("merge-min A", op="mergemin", fam="A", R=5, pmax=4)
     add("top-bottom C", op="topbottom", fam="C", R=6 if q else 7)
@@ -51,9 +52,11 @@ def op_configs(tier):
             R = len(family(fam))
             for op, kw in (("perm", dict(force=None)), ("segr", dict(pmax=3)), ("mergemin", dict(pmax=5)), ("topbottom", {}),
                            ("fixed", dict(pmax=3)), ("optimal", {}), ("nper", {}), ("ensemble", {}), ("holdout", {}),
-                           ("rholdout", {}), ("cover", {}), ("combofilter", {})):
+                           ("rholdout", {}), ("cover", {}), ("combofilter", {}), ("pair", {})):
                 # operations whose generator draws are permutations of all rows are factorial in the row count
-                if op in ("perm", "rholdout", "cover", "segr"):
+                if op == "pair" and (q or k >= 12):
+                    continue
+                if op in ("perm", "rholdout", "cover", "segr", "pair"):
                     if k >= 24 and not q:
                         continue
                     Rop = min(R, 5 if q else 7 if k < 4 else 6)
